@@ -148,6 +148,22 @@ def main():
                'func CheckArg%d(%s, pre int32, post int64) bool {' % (i, vdecl),
                '\ts := mk%d(%s)' % (i, vs), '\treturn c_sum_%d(pre, s, post) == sum%d(pre, s, post)\n}' % (i, i)]
         c.append('uint64_t c_sum_%d(int32_t pre, S%d s, int64_t post) { return sum%d(pre, s, post); }' % (i, i, i))
+        # 1b. the same with the integer / the SSE argument registers nearly used up
+        # (a struct that no longer fits the remaining registers goes to memory as a whole)
+        go += ['//go:linkname c_sumi_%d C.c_sumi_%d' % (i, i), 'func c_sumi_%d(a1, a2, a3, a4, a5 int64, s S%d, post int64) uint64' % (i, i),
+               'func CheckArgI%d(%s, pre int32, post int64) bool {' % (i, vdecl),
+               '\ts := mk%d(%s)' % (i, vs),
+               '\twant := mix(mix(mix(mix(sum%d(pre, s, post), 2), 3), uint64(post)), 5)' % i,
+               '\treturn c_sumi_%d(int64(pre), 2, 3, post, 5, s, post) == want\n}' % i,
+               '//go:linkname c_sumf_%d C.c_sumf_%d' % (i, i), 'func c_sumf_%d(d1, d2, d3, d4, d5, d6, d7 float64, s S%d, post int64) uint64' % (i, i),
+               'func CheckArgF%d(%s, pre int32, post int64) bool {' % (i, vdecl),
+               '\ts := mk%d(%s)' % (i, vs),
+               '\td, e := f64from(uint64(post)), f64from(uint64(uint32(pre)))',
+               '\twant := sum%d(0, s, post)' % i,
+               '\tfor _, x := range [7]float64{d, e, d, e, d, e, d} {\n\t\twant = mix(want, f64bits(x))\n\t}',
+               '\treturn c_sumf_%d(d, e, d, e, d, e, d, s, post) == want\n}' % i]
+        c.append('uint64_t c_sumi_%d(int64_t a1, int64_t a2, int64_t a3, int64_t a4, int64_t a5, S%d s, int64_t post) { return mix(mix(mix(mix(sum%d((int32_t)a1, s, post), (uint64_t)a2), (uint64_t)a3), (uint64_t)a4), (uint64_t)a5); }' % (i, i, i))
+        c.append('uint64_t c_sumf_%d(double d1, double d2, double d3, double d4, double d5, double d6, double d7, S%d s, int64_t post) { uint64_t r = sum%d(0, s, post); r = mix(r, f64bits(d1)); r = mix(r, f64bits(d2)); r = mix(r, f64bits(d3)); r = mix(r, f64bits(d4)); r = mix(r, f64bits(d5)); r = mix(r, f64bits(d6)); r = mix(r, f64bits(d7)); return r; }' % (i, i, i))
         # 2. C -> Go result
         go += ['//go:linkname c_make_%d C.c_make_%d' % (i, i), 'func c_make_%d(%s) S%d' % (i, vdecl, i),
                'func CheckRet%d(%s) bool {' % (i, vdecl),
@@ -168,6 +184,8 @@ def main():
         pv = [['v%d' % k, 'uint64'] for k in range(n)]
         meta['CheckArg%d' % i] = {'params': pv + [['pre', 'int32'], ['post', 'int64']], 'result': 'bool', 'shape': desc}
         meta['CheckRet%d' % i] = {'params': pv, 'result': 'bool', 'shape': desc}
+        meta['CheckArgI%d' % i] = {'params': pv + [['pre', 'int32'], ['post', 'int64']], 'result': 'bool', 'shape': desc + ' after 5 integer arguments'}
+        meta['CheckArgF%d' % i] = {'params': pv + [['pre', 'int32'], ['post', 'int64']], 'result': 'bool', 'shape': desc + ' after 7 double arguments'}
         meta['CheckCbArg%d' % i] = {'params': pv + [['pre', 'int32'], ['post', 'int64']], 'result': 'bool', 'shape': desc}
         meta['CheckCbRet%d' % i] = {'params': pv, 'result': 'bool', 'shape': desc}
     # scalars narrower than a register: the producer of the value extends it
